@@ -165,8 +165,11 @@ def generate(plan) -> None:
         k["disable_qos"] = r.choice([False, None])
     elif sc == "match":
         n_callers, per = 1, r.randrange(1, 4)
-        k["p_echo_lost"] = k["p_reply_none"] = 0.0
+        k["p_echo_lost"] = k["p_reply_none"] = k["p_near_timer"] = k["p_dup"] = 0.0
         k["fw"] = "evofw3"
+        k["disable_qos"] = False
+        k["adversary"] = not fault_free
+        k["p_slow"] = 0.0
     else:
         n_callers, per = r.randrange(1, 7), r.randrange(1, 5)
 
@@ -318,7 +321,7 @@ class QosSim:
                     cands.append(rem)
             base = r.choice(cands)
             return round(max(0.001, base + r.choice(EPS)), 6)
-        if r.random() < 0.1:
+        if r.random() < self.plan.knob("p_slow", 0.1):
             return round(r.uniform(0.3, 6.0), 4)
         return round(r.uniform(0.005, 0.04), 4)
 
@@ -336,6 +339,9 @@ class QosSim:
         lat = self._lat(r, op, ECHO_T)
         if r.random() < 0.1:
             lat = round(r.uniform(0.001, 0.009), 4)  # often before the echo
+        elif self.plan.d["scenario"] == "match":
+            lat = round(lat + 0.04, 4)  # after the echo, so that there is a 'between'
+
         if r.random() < self.plan.knob("p_dup", 0.0):
             return ["dup", lat, r.choice([0.0, 0.001, 0.03, 0.3])]
         return ["ok", lat]
@@ -354,6 +360,8 @@ class QosSim:
         self.tag += 1
         rf = op.reply_frame(self.gid, self.tag)
         op.replies.add(rf)
+        if self.plan.knob("adversary"):
+            self.adversary(ser, op, n, d[1])
         lats = [d[1]] + ([d[1] + d[2]] if d[0] == "dup" else [])
         if d[0] == "dup":
             self.hub.count("reply_dup")
@@ -363,6 +371,28 @@ class QosSim:
         for lat in lats:
             self.hub.rx_line(ser, rf, lat)
             op.reply_rx.append((self.now() + lat, rf))
+
+    def adversary(self, ser, op: Op, n: int, reply_lat: float) -> None:
+        """Near-misses at the three instants that matter, relative to this transmission."""
+
+        def gen(r):
+            out = []
+            for pos in ("pre_echo", "mid", "with_reply"):
+                if r.random() < 0.6:
+                    out.append([pos, r.choice(["code", "verb", "dev", "ctx", "requester", "rq_other"])])
+            return out
+
+        picks = self.plan.decide(f"op{op.id}/tx{n}/adv", gen, [])
+        r = self.plan.rng(f"op{op.id}/tx{n}/advr")
+        for pos, what in picks:
+            f = self.foreign_frame(what, op, r)
+            if f is None:
+                continue
+            self.foreign_frames[f] = what
+            self.hub.count("foreign")
+            self.ctx.ab(f"{op.kind}:{what}@{pos}")
+            lat = {"pre_echo": 0.002, "mid": 0.02, "with_reply": reply_lat - 1e-6}[pos]
+            self.hub.rx_line(ser, f, max(0.0005, lat))
 
     # -- foreign traffic -------------------------------------------------------------
     def foreign_frame(self, what: str, op: Op, r) -> str | None:
@@ -390,6 +420,9 @@ class QosSim:
             if op.kind == "0418n":
                 return None
             return op.reply_frame(self.gid, self.tag, z=y)
+        if what == "rq_other":  # the same request from another requester (documented collision)
+            other = "01:199999" if op.dst[:2] != "01" else "30:199999"
+            return op.frame[:7] + other + op.frame[16:]
         if what == "requester":  # documented collision: probe only
             return op.reply_frame(self.gid, self.tag, dst="01:199999" if op.dst[:2] != "01" else "30:199999")
         return f" I --- 04:0{r.randrange(10000, 99999)} --:------ 01:145038 3150 002 0{r.randrange(8)}64"
